@@ -455,8 +455,9 @@ def rule_print_all(ctx: RuleContext, p: Program, rid: str) -> None:
     """finite-domain evaluation of print_model and RawModel.tokens against mock models / stores"""
     from . import possem
     from .tokenstore import TS
-    ctx.rule(rid, 'print_model, interpreted on mock models of 0..3 tokens, writes raw_text of every element of model.tokens to the file, in '
-                  'order and nothing else, and returns the file; RawModel.tokens, interpreted against a mock store, is the list of the store '
+    ctx.rule(rid, 'print_model, interpreted on mock models of 0..6 tokens (the sixth text an instance of a str subclass whose str() is not its '
+                  'characters), writes the characters of raw_text of every element of model.tokens to the file, in order and nothing else, and '
+                  'returns the file; RawModel.tokens, interpreted against a mock store, is the list of the store '
                   'range first_token..last_token (the empty list only when the model has no store or no tokens)')
     ts = TS(p)
     f = p.func('printer', 'print_model')
@@ -475,7 +476,7 @@ def rule_print_all(ctx: RuleContext, p: Program, rid: str) -> None:
                 bv = self.expr(e.func.value, env) if not (isinstance(e.func.value, ast.Name) and e.func.value.id not in env) else None
                 if isinstance(bv, possem.Obj) and bv.cls == 'File' and e.func.attr in ('write', 'writelines'):
                     args = [self.expr(a, env) for a in e.args]
-                    self.written.extend([args[0]] if e.func.attr == 'write' else list(self.iter_of(args[0], e)))
+                    self.written.extend(_chars(x) for x in ([args[0]] if e.func.attr == 'write' else list(self.iter_of(args[0], e))))
                     return None
                 if isinstance(bv, possem.Obj) and bv.cls == 'Store' and e.func.attr in ('get_first', 'get_last') and not e.args:
                     al = bv.f['all']
@@ -485,7 +486,43 @@ def rule_print_all(ctx: RuleContext, p: Program, rid: str) -> None:
                     self.ranges.append(tuple(args))
                     return list(bv.f['span']) if len(args) == 2 and args[0] is bv.f['span'][0] and args[1] is bv.f['span'][-1] else ['<wrong range>']
             if isinstance(e, ast.Call) and isinstance(e.func, ast.Attribute) and e.func.attr == 'join' and isinstance(e.func.value, ast.Constant):
-                return e.func.value.value.join(self.iter_of(self.expr(e.args[0], env), e))
+                return e.func.value.value.join(_chars(x) for x in self.iter_of(self.expr(e.args[0], env), e))
+            if isinstance(e, ast.Call) and isinstance(e.func, ast.Name) and e.func.id in ('print', 'str', 'format', 'repr') and e.func.id not in env:
+                args: list = []
+                for a in e.args:
+                    if isinstance(a, ast.Starred):
+                        args.extend(self.iter_of(self.expr(a.value, env), e))
+                    else:
+                        args.append(self.expr(a, env))
+                kw = {k.arg: self.expr(k.value, env) for k in e.keywords if k.arg}
+                if e.func.id == 'print':
+                    # the builtin: str() of every argument, joined by sep, followed by end, written to file
+                    out = kw.get('file')
+                    if not (isinstance(out, possem.Obj) and out.cls == 'File'):
+                        raise possem.Raised('print() without file=: the text goes to the standard output, not to the file given')
+                    sep = ' ' if kw.get('sep') is None else kw['sep']
+                    end = '\n' if kw.get('end') is None else kw['end']
+                    self.written.append(sep.join(_str_of(x) for x in args) + end)
+                    return None
+                if e.func.id in ('str', 'format') and len(args) >= 1 and (len(args) == 1 or args[1] == ''):
+                    return _str_of(args[0])
+                if e.func.id == 'repr' and len(args) == 1 and isinstance(args[0], str):
+                    return repr(args[0])
+            if isinstance(e, ast.JoinedStr):
+                out_s = ''
+                for part in e.values:
+                    if isinstance(part, ast.Constant):
+                        out_s += part.value
+                    elif isinstance(part, ast.FormattedValue) and part.format_spec is None and part.conversion in (-1, 115):
+                        out_s += _str_of(self.expr(part.value, env))
+                    else:
+                        return super().expr(e, env)
+                return out_s
+            if isinstance(e, ast.BinOp) and isinstance(e.op, ast.Add):
+                a, b = self.expr(e.left, env), self.expr(e.right, env)
+                if (isinstance(a, possem.Obj) and a.cls == 'StrSub') or (isinstance(b, possem.Obj) and b.cls == 'StrSub'):
+                    if isinstance(a, (str, possem.Obj)) and isinstance(b, (str, possem.Obj)):
+                        return _chars(a) + _chars(b)
             return super().expr(e, env)
 
         def truth(self, v: Any, node: Any) -> bool:               # type: ignore[override]
@@ -495,9 +532,22 @@ def rule_print_all(ctx: RuleContext, p: Program, rid: str) -> None:
                 return True
             return super().truth(v, node)
 
+    def _chars(x: Any) -> Any:
+        return x.f['chars'] if isinstance(x, possem.Obj) and x.cls == 'StrSub' else x
+
+    def _str_of(x: Any) -> str:
+        if isinstance(x, possem.Obj) and x.cls == 'StrSub':
+            return x.f['str']
+        if isinstance(x, str):
+            return x
+        raise possem.Unsupported(f'str() of {x!r}')
+
     problem = ''
-    for k in range(0, 5):
-        texts = ['t0;', ' ', '\n', '', 't4'][:k + 1] if k else []
+    for k in range(0, 6):
+        # the last text is an instance of a str subclass whose __str__ is not its characters (a str-mixin enum member, which the identity-
+        # formatted token classes store as given): write(), join and + take the characters, print(), str() and f-strings take __str__
+        sub = possem.Obj('StrSub', {'chars': 'Assets:Cash', 'str': 'Acct.CASH'}, "a str-subclass text 'Assets:Cash' whose str() is 'Acct.CASH'")
+        texts = ['t0;', ' ', '\n', '', 't4', sub][:k + 1] if k else []
         toks = [possem.Obj('Tok', {'raw_text': tx}, f'tok{i}') for i, tx in enumerate(texts)]
         store_ = possem.Obj('Store', {'all': list(toks), 'span': list(toks) or [None]}, 'store')
         model = possem.Obj('Model', {'tokens': toks, 'token_store': store_ if toks else None, '_token_store': store_ if toks else None,
@@ -509,8 +559,10 @@ def rule_print_all(ctx: RuleContext, p: Program, rid: str) -> None:
         except possem.Raised as ex:
             problem = problem or f'{k} tokens: raises {ex}'
             continue
-        if ''.join(it.written) != ''.join(t.f['raw_text'] for t in toks):
-            problem = problem or f'{k} tokens: writes {it.written}, the tokens read {[t.f["raw_text"] for t in toks]}'
+        if ''.join(it.written) != ''.join(_chars(t.f['raw_text']) for t in toks):
+            problem = problem or f'{k} tokens: writes {it.written}, the tokens read {[_chars(t.f["raw_text"]) for t in toks]}' + (
+                " (the last text is an instance of a str subclass whose str() is 'Acct.CASH': print(), str() and f-strings do not write its characters)"
+                if k == 5 else '')
         elif res is not out:
             problem = problem or 'does not return the file it was given'
     # a token model that lives in no store (what parse_token / from_raw_text / from_value return): its `tokens` is the token itself
